@@ -325,6 +325,11 @@ func (fr *Frame) appendOp(c *ssa.CallCommon, setRes func(*Val), h Heap, name str
 			return fmt.Sprintf("(select (select %s (s_arr %s)) %s)", earr, t, g.iadd("(s_off "+t+")", j))
 		}
 	}
+	// append(s, x1, ..., xk) with a small constant k: plain array stores, no quantified axiom for
+	// the in-place case and a single shift axiom for the reallocation case
+	if k, ok := varargsLen(c.Args[1]); ok && k >= 1 && k <= 4 {
+		return fr.appendFixed(c, setRes, h, name, s, el, k, telem)
+	}
 	newLen := g.define(fr.prefix+"applen", g.IS(), g.iadd("(s_len "+s+")", tlen))
 	fits := g.define(fr.prefix+"appfits", "Bool", g.ile(newLen, "(s_cap "+s+")"))
 	fr.oblig("append", "safety", "", g.ile(newLen, g.maxLen()), "append: length in range", c.Pos())
@@ -342,6 +347,61 @@ func (fr *Frame) appendOp(c *ssa.CallCommon, setRes func(*Val), h Heap, name str
 	inApp := and(g.ile(start, "i"), g.ilt("i", g.iadd(start, tlen)))
 	body := fmt.Sprintf("(ite %s %s (ite %s (select %s i) (select %s %s)))", inApp, telem(g.isub("i", start)), fits, oldA, oldA, g.iadd("(s_off "+s+")", "i"))
 	g.defs = append(g.defs, fmt.Sprintf("(forall ((i %s)) (! (= (select %s i) %s) :pattern ((select %s i))))", g.IS(), na, body, na))
+	// ground witnesses: the first and the last appended element (instances of the axiom above that
+	// give the instantiation pass the index terms of the new elements)
+	last := g.isub(g.iadd(start, tlen), g.ilit(1))
+	g.defs = append(g.defs, fmt.Sprintf("(=> %s (and (= (select %s %s) %s) (= (select %s %s) %s)))", g.ilt(g.ilit(0), tlen),
+		na, start, telem(g.ilit(0)), na, last, telem(g.isub(tlen, g.ilit(1)))))
+	nh[en] = g.define(en, esrt, fmt.Sprintf("(store %s %s %s)", earr, resArr, na))
+	setRes(&Val{T: res})
+	return nh
+}
+
+// varargsLen: is v the slice over a compiler-generated varargs array of constant length?
+func varargsLen(v ssa.Value) (int64, bool) {
+	sl, ok := v.(*ssa.Slice)
+	if !ok || sl.Low != nil || sl.High != nil || sl.Max != nil {
+		return 0, false
+	}
+	al, ok := sl.X.(*ssa.Alloc)
+	if !ok || al.Comment != "varargs" {
+		return 0, false
+	}
+	at, ok := al.Type().Underlying().(*types.Pointer).Elem().Underlying().(*types.Array)
+	if !ok {
+		return 0, false
+	}
+	return at.Len(), true
+}
+
+func (fr *Frame) appendFixed(c *ssa.CallCommon, setRes func(*Val), h Heap, name, s string, el types.Type, k int64, telem func(string) string) Heap {
+	g := fr.g
+	es := g.sortOf(el)
+	en, esrt := g.elemArrName(el)
+	earr := g.heapArr(h, en, esrt)
+	newLen := g.define(fr.prefix+"applen", g.IS(), g.iadd("(s_len "+s+")", g.ilit(k)))
+	fits := g.define(fr.prefix+"appfits", "Bool", g.ile(newLen, "(s_cap "+s+")"))
+	fr.oblig("append", "safety", "", g.ile(newLen, g.maxLen()), "append: length in range", c.Pos())
+	r, nh := fr.freshRef(h, "append_"+name)
+	newCap := g.fresh(fr.prefix+"appcap", g.IS())
+	g.defs = append(g.defs, and(g.ile(newLen, newCap), g.ile(newCap, g.maxLen())))
+	resArr := g.define(fr.prefix+"apparrref", "Int", ite(fits, fmt.Sprintf("(s_arr %s)", s), r))
+	resOff := ite(fits, fmt.Sprintf("(s_off %s)", s), g.ilit(0))
+	resCap := ite(fits, fmt.Sprintf("(s_cap %s)", s), newCap)
+	res := g.define(fr.prefix+name, "Slice", fmt.Sprintf("(mk_slice %s %s %s %s)", resArr, resOff, newLen, resCap))
+	oldA := g.define(fr.prefix+"appold", "(Array "+g.IS()+" "+es+")", fmt.Sprintf("(select %s (s_arr %s))", earr, s))
+	// reallocation: the prefix is copied to offset 0 of a fresh array
+	shifted := g.fresh(fr.prefix+"appshift", "(Array "+g.IS()+" "+es+")")
+	g.defs = append(g.defs, fmt.Sprintf("(forall ((i %s)) (! (=> %s (= (select %s i) (select %s %s))) :pattern ((select %s i))))", g.IS(),
+		g.inRange("i", "(s_len "+s+")"), shifted, oldA, g.iadd("(s_off "+s+")", "i"), shifted))
+	inplace := oldA
+	fresh := shifted
+	for j := int64(0); j < k; j++ {
+		ev := g.define(fr.prefix+"appelem", es, telem(g.ilit(j)))
+		inplace = fmt.Sprintf("(store %s %s %s)", inplace, g.iadd(g.iadd("(s_off "+s+")", "(s_len "+s+")"), g.ilit(j)), ev)
+		fresh = fmt.Sprintf("(store %s %s %s)", fresh, g.iadd("(s_len "+s+")", g.ilit(j)), ev)
+	}
+	na := g.define(fr.prefix+"apparr", "(Array "+g.IS()+" "+es+")", ite(fits, inplace, fresh))
 	nh[en] = g.define(en, esrt, fmt.Sprintf("(store %s %s %s)", earr, resArr, na))
 	setRes(&Val{T: res})
 	return nh
